@@ -1,5 +1,6 @@
 import Aiortc.Lemmas.Router
 import Aiortc.Lemmas.Remb
+import Aiortc.Lemmas.C12.Many
 /-!
 # C12 — bundled RTP/RTCP is routed to exactly the right receivers and senders
 
@@ -510,6 +511,146 @@ theorem history_spec (pre : List Op) :
   · obtain ⟨l, hl, h2⟩ := route_rtcp_spec st p
     exact ⟨l, by show Out.rtcp (routeRtcp st p) = _; rw [hl], h2⟩
 
+/-! ## 5. No limit on the number of streams
+
+The property quantifies over all histories, so there is no number of SSRCs after which the router may stop remembering new ones:
+whatever is already in the tables (`st` is any well-formed state, e.g. one reached by an arbitrarily long history) and however many
+new streams show up (`xs` is a list of any length), each of them latches, the table holds every one of them, and each of them
+sticks. (Round 3: a cap `len(ssrc_table) < 64` on latching was seeded; these are the statements such a cap contradicts.) -/
+
+/-- The first packet of each of the streams `xs` (any number of them), all with payload type `pt`. -/
+def firstPackets (xs : List Nat) (pt : Nat) : List Op := xs.map fun x => Op.rtp x pt
+
+/-- **Every one of any number of new streams latches.** If `r` is the only receiver accepting `pt` and none of the SSRCs `xs`
+belongs to somebody else, the first packets of all these streams are handed to `r`, afterwards every one of these SSRCs is bound
+to `r`, and nothing else changed (earlier bindings, payload types, receivers, senders). -/
+theorem many_streams_all_latch {st : Router} (h : WF st) (r pt : Nat)
+    (hacc : ∀ r', accepts st pt r' ↔ r' = r) (xs : List Nat)
+    (hx : ∀ x ∈ xs, ssrcOf st x = none ∨ ssrcOf st x = some r) :
+    let res := run st (firstPackets xs pt)
+    res.2 = xs.map (fun _ => Out.rtp (some r)) ∧
+    (∀ x ∈ xs, ssrcOf res.1 x = some r) ∧
+    (∀ y, ssrcOf st y ≠ none → ssrcOf res.1 y = ssrcOf st y) ∧
+    res.1.ptTable = st.ptTable ∧ res.1.receivers = st.receivers ∧ res.1.senders = st.senders := by
+  induction xs generalizing st with
+  | nil => exact ⟨rfl, by simp, fun _ _ => rfl, rfl, rfl, rfl⟩
+  | cons x xs ih =>
+    have hres : (routeRtp st x pt).2 = some r := by
+      rw [route_rtp_spec h]
+      rcases hx x (by simp) with hn | hs
+      · exact Or.inr ⟨hn, hacc⟩
+      · exact Or.inl ⟨hs, (hacc r).2 rfl⟩
+    obtain ⟨hrecv, hsnd, _, hpt, hss⟩ := route_rtp_state st x pt
+    have hacc1 : ∀ r', accepts (routeRtp st x pt).1 pt r' ↔ r' = r := by
+      intro r'; unfold accepts; rw [hpt]; exact hacc r'
+    have hx1 : ∀ y ∈ xs, ssrcOf (routeRtp st x pt).1 y = none ∨ ssrcOf (routeRtp st x pt).1 y = some r := by
+      intro y hy
+      rw [hss y, hres]
+      split
+      · exact Or.inr rfl
+      · exact hx y (by simp [hy])
+    have hbx : ssrcOf (routeRtp st x pt).1 x = some r := route_rtp_binds st x pt r hres
+    obtain ⟨io, ib, ik, ip, ir, is⟩ := ih (h.routeRtp x pt) hacc1 hx1
+    have hstep : step st (.rtp x pt) = ((routeRtp st x pt).1, .rtp (routeRtp st x pt).2) := rfl
+    simp only [firstPackets, List.map_cons, run_cons, hstep] at io ib ik ip ir is ⊢
+    refine ⟨by rw [hres, io], ?_, ?_, by rw [ip, hpt], by rw [ir, hrecv], by rw [is, hsnd]⟩
+    · intro y hy
+      rcases List.mem_cons.1 hy with rfl | hy
+      · rw [ik y (by rw [hbx]; simp), hbx]
+      · exact ib y hy
+    · intro y hy
+      have h1 : ssrcOf (routeRtp st x pt).1 y = ssrcOf st y := by
+        rw [hss y]
+        split
+        · rename_i hc; rw [hc.1] at hy; exact absurd hc.2 hy
+        · rfl
+      rw [ik y (by rw [h1]; exact hy), h1]
+
+/-- **… and every one of them sticks.** After the first packets of any number of streams, through every later history that
+neither unregisters `r` nor registers one of these SSRCs explicitly (other receivers for the same payload type may come and go):
+each stream is still bound to `r`, its RTP goes to `r` (dropped only if `r` itself no longer accepts the payload type, never to
+anybody else), and its sender reports and BYEs reach `r`. -/
+theorem many_streams_stick {st : Router} (h : WF st) (r pt : Nat)
+    (hacc : ∀ r', accepts st pt r' ↔ r' = r) (xs : List Nat)
+    (hx : ∀ x ∈ xs, ssrcOf st x = none ∨ ssrcOf st x = some r)
+    (ops : List Op) (hops : ∀ x ∈ xs, ∀ op ∈ ops, ¬ rebinds x r op) :
+    let st' := (run st (firstPackets xs pt ++ ops)).1
+    ∀ x ∈ xs,
+      ssrcOf st' x = some r ∧
+      (∀ pt', (routeRtp st' x pt').2 = if accepts st' pt' r then some r else none) ∧
+      (∀ reports, ∃ l, routeRtcp st' (.sr x reports) = .ok l ∧ Recipient.receiver r ∈ l) ∧
+      (∀ others, ∃ l, routeRtcp st' (.bye (x :: others)) = .ok l ∧ Recipient.receiver r ∈ l) := by
+  intro st' x hxm
+  have hst' : st' = (run (run st (firstPackets xs pt)).1 ops).1 := by
+    show (run st (firstPackets xs pt ++ ops)).1 = _
+    rw [run_append]
+  have hwf1 : WF (run st (firstPackets xs pt)).1 := h.run _
+  have hb1 : ssrcOf (run st (firstPackets xs pt)).1 x = some r :=
+    (many_streams_all_latch h r pt hacc xs hx).2.1 x hxm
+  have hb : ssrcOf st' x = some r := by rw [hst']; exact latch_sticks hb1 ops (hops x hxm)
+  refine ⟨hb, fun pt' => ?_, fun reports => ?_, fun others => ?_⟩
+  · rw [hst']; exact rtp_after_latch hwf1 hb1 ops (hops x hxm) pt'
+  · obtain ⟨l, hl, _, hrec, _⟩ := route_rtcp_spec st' (.sr x reports)
+    exact ⟨l, hl, (hrec r).2 ⟨x, by simp [reportedSources], hb⟩⟩
+  · obtain ⟨l, hl, _, hrec, _⟩ := route_rtcp_spec st' (.bye (x :: others))
+    exact ⟨l, hl, (hrec r).2 ⟨x, by simp [reportedSources], hb⟩⟩
+
+/-- **The SSRC table has no maximum size**: after `n` distinct new streams it has at least `n` entries, for every `n`. -/
+theorem ssrc_table_unbounded {st : Router} (h : WF st) (r pt : Nat)
+    (hacc : ∀ r', accepts st pt r' ↔ r' = r) (xs : List Nat) (hn : xs.Nodup)
+    (hx : ∀ x ∈ xs, ssrcOf st x = none ∨ ssrcOf st x = some r) :
+    xs.length ≤ (run st (firstPackets xs pt)).1.ssrcTable.length := by
+  have hall := (many_streams_all_latch h r pt hacc xs hx).2.1
+  have hsub : xs ⊆ dkeys (run st (firstPackets xs pt)).1.ssrcTable := fun x hxm => mem_dkeys_of_dget (hall x hxm)
+  have := length_le_of_nodup_subset hn hsub
+  simpa [dkeys] using this
+
+/-- `register_sender(s, x)` for every pair `(s, x)` of a list (any number of senders / SSRCs). -/
+def registerSenders (ps : List (Nat × Nat)) : List Op := ps.map fun p => Op.regSender p.1 p.2
+
+/-- registering senders on other SSRCs does not change who owns SSRC `x` -/
+theorem senderOf_registerSenders_other (st : Router) (ps : List (Nat × Nat)) (x : Nat) (hx : x ∉ ps.map Prod.snd) :
+    senderOf (run st (registerSenders ps)).1 x = senderOf st x := by
+  induction ps generalizing st with
+  | nil => rfl
+  | cons p ps ih =>
+    simp only [List.map_cons, List.mem_cons, not_or] at hx
+    have hstep : step st (.regSender p.1 p.2) = (registerSender st p.1 p.2, .unit) := rfl
+    simp only [registerSenders, List.map_cons, run_cons, hstep]
+    have := ih (registerSender st p.1 p.2) hx.2
+    simp only [registerSenders] at this
+    rw [this, (register_sender_spec st p.1 p.2).1 x, if_neg hx.1]
+
+/-- **Any number of senders.** After registering any number of senders on distinct SSRCs every one of them owns its SSRC, feedback
+for each SSRC reaches its sender, and a receiver report with a report block for every one of them reaches all of them. -/
+theorem many_senders_all_reachable (st : Router) (ps : List (Nat × Nat)) (hn : (ps.map Prod.snd).Nodup) :
+    let st' := (run st (registerSenders ps)).1
+    (∀ p ∈ ps, senderOf st' p.2 = some p.1) ∧
+    (∀ p ∈ ps, ∀ ssrc, ∃ l, routeRtcp st' (.rtpfb 1 ssrc p.2) = .ok l ∧ Recipient.sender p.1 ∈ l) ∧
+    (∀ ssrc, ∃ l, routeRtcp st' (.rr ssrc (ps.map Prod.snd)) = .ok l ∧ ∀ p ∈ ps, Recipient.sender p.1 ∈ l) := by
+  intro st'
+  have hall : ∀ p ∈ ps, senderOf st' p.2 = some p.1 := by
+    show ∀ p ∈ ps, senderOf (run st (registerSenders ps)).1 p.2 = some p.1
+    clear st'
+    induction ps generalizing st with
+    | nil => intro p hp; cases hp
+    | cons q ps ih =>
+      have hn' : q.2 ∉ ps.map Prod.snd ∧ (ps.map Prod.snd).Nodup := List.nodup_cons.1 hn
+      have hstep : step st (.regSender q.1 q.2) = (registerSender st q.1 q.2, .unit) := rfl
+      intro p hp
+      simp only [registerSenders, List.map_cons, run_cons, hstep]
+      rcases List.mem_cons.1 hp with rfl | hp
+      · have := senderOf_registerSenders_other (registerSender st p.1 p.2) ps p.2 hn'.1
+        simp only [registerSenders] at this
+        rw [this, (register_sender_spec st p.1 p.2).1 p.2, if_pos rfl]
+      · have := ih (registerSender st q.1 q.2) hn'.2 p hp
+        simpa only [registerSenders] using this
+  refine ⟨hall, fun p hp ssrc => ?_, fun ssrc => ?_⟩
+  · obtain ⟨l, hl, _, _, hsnd⟩ := route_rtcp_spec st' (.rtpfb 1 ssrc p.2)
+    exact ⟨l, hl, (hsnd p.1).2 ⟨p.2, by simp [reportedMedia], hall p hp⟩⟩
+  · obtain ⟨l, hl, _, _, hsnd⟩ := route_rtcp_spec st' (.rr ssrc (ps.map Prod.snd))
+    exact ⟨l, hl, fun p hp => (hsnd p.1).2 ⟨p.2, by simp only [reportedMedia]; exact List.mem_map_of_mem hp, hall p hp⟩⟩
+
 /-! ## Non-vacuity -/
 
 /-- latch → stick → unregister → gone, with two receivers sharing payload type 96 -/
@@ -537,5 +678,36 @@ example : ¬ rebinds 7 0 (.regReceiver 1 [8] [96] none) ∧ ¬ rebinds 7 0 (.unr
   simp [rebinds, registersReceiver, registersSender]
 
 example : WF (registerReceiver Router.empty 3 [1, 2] [96, 97] (some "m")) := WF.empty.registerReceiver ..
+
+/-- hypotheses of `many_streams_all_latch` / `many_streams_stick` / `ssrc_table_unbounded` are satisfiable for as many streams as
+one likes: receiver 0 (SSRC 1111, payload type 96), streams 10000 … 10000+n-1, later a second receiver for payload type 96 -/
+example (n : Nat) :
+    let st := registerReceiver Router.empty 0 [1111] [96] none
+    WF st ∧ (∀ r', accepts st 96 r' ↔ r' = 0) ∧ (List.range' 10000 n).Nodup ∧
+    (∀ x ∈ List.range' 10000 n, ssrcOf st x = none ∨ ssrcOf st x = some 0) ∧
+    ∀ x ∈ List.range' 10000 n, ∀ op ∈ [Op.regReceiver 1 [2222] [96] none, .rtp 5 96, .unregReceiver 1], ¬ rebinds x 0 op := by
+  refine ⟨WF.empty.registerReceiver .., ?_, List.nodup_range', ?_, ?_⟩
+  · intro r'; simp [accepts, registerReceiver, Router.empty, ptAdd, ptSet, dget, sadd]
+  · intro x hx
+    left
+    have : x ≠ 1111 := by have := List.mem_range'_1.1 hx; omega
+    simp [ssrcOf, registerReceiver, Router.empty, dset, dget, Ne.symm this]
+  · intro x hx op hop
+    have : x ≠ 2222 := by have := List.mem_range'_1.1 hx; omega
+    simp at hop
+    rcases hop with rfl | rfl | rfl <;> simp [rebinds, this]
+
+/-- 70 unknown streams on one receiver, then a second receiver for the payload type: the 70th stream's next packet and its sender
+report still go to receiver 0; a 71st, new stream is dropped as ambiguous -/
+example :
+    (run Router.empty ([.regReceiver 0 [] [96] none] ++ firstPackets (List.range' 10000 70) 96 ++
+       [.regReceiver 1 [] [96] none, .rtp 10069 96, .rtcp (.sr 10069 []), .rtp 20000 96])).2.drop 72
+    = [.rtp (some 0), .rtcp (.ok [.receiver 0]), .rtp none] := by decide
+
+/-- the side condition of `many_senders_all_reachable` is satisfiable for any number of senders (7 sender objects, `n` SSRCs) -/
+example (n : Nat) : (((List.range' 5000 n).map fun x => (x % 7, x)).map Prod.snd).Nodup := by
+  have : ((List.range' 5000 n).map fun x => (x % 7, x)).map Prod.snd = List.range' 5000 n := by
+    simp [List.map_map, Function.comp_def]
+  rw [this]; exact List.nodup_range'
 
 end Aiortc.Props.C12
